@@ -375,7 +375,17 @@ def k4(ctx):
                       % (t, shape, raw, sorted(map(str, got))), put.loc()))
     # int64 guard on the int branch
     guard = False
+    scan = [put.node]
     for n in ast.walk(put.node):
+        if isinstance(n, ast.Call) and isinstance(n.func, ast.Name):
+            h = ctx.prog.funcs.get('%s.%s' % (put.module, n.func.id))
+            if h is not None and h.cls is None:
+                scan.append(h.node)         # e.g. a module-level _fits_int64(number)
+        if isinstance(n, ast.Call) and (dotted(n.func) or '').startswith('self._'):
+            h = ctx.prog.lookup(put.cls, dotted(n.func)[5:]) if put.cls else None
+            if h is not None:
+                scan.append(h.node)
+    for n in [m for root in scan for m in ast.walk(root)]:
         if isinstance(n, ast.Compare) and len(n.ops) == 2 and all(isinstance(o, ast.LtE) for o in n.ops):
             try:
                 lo = ctx.fold(n.left, put.module)
